@@ -7,13 +7,14 @@
 
    stream `mini`: line = `<fuel> <n> q₁ … qₙ main ||| <wire input>` with queries in prefix form
         id | c <wire value> | pipe a b | comma a b | iter | empty | arr q | param | call <f> a
-        | error | try b | trycatch b h
+        | error | try b | trycatch b h | index <wire key> | ite c a b | alt l r
      answer: `<instructions of compileProg, scope ids and registers renumbered by first
      appearance> ||| <outputs of the mini VM> END` (or `ERR msg s<hex>`), `?…` when not covered. -/
 import Gojq.Model.Stack
 import Gojq.Model.MiniVM
 import Gojq.Model.Wire
 import Gojq.Model.Native.Base
+import Gojq.Model.Native.Index
 import Driver.Common
 open Gojq Gojq.Wire
 
@@ -69,10 +70,14 @@ open Gojq.MiniVM
 def unmodelledMsg : Bytes := B "\x00unmodelled"
 
 /-- `iteratorError{v}.Error()` from the message model of Model/Native/Base.lean -/
+def errMsgV (e : Gojq.Err) : V := match e.message with
+  | some m => .str m
+  | none => .str unmodelledMsg
+
 instance : IterMsg where
-  msg v := match (Gojq.Err.builtin "iterator" [v]).message with
-    | some m => .str m
-    | none => .str unmodelledMsg
+  msg v := errMsgV (Gojq.Err.builtin "iterator" [v])
+  index v k := match Gojq.funcIndex2 v k with | .ok w => some w | .error _ => none
+  indexMsg v k := match Gojq.funcIndex2 v k with | .ok _ => .null | .error e => errMsgV e
 
 partial def mentionsUnmodelled : V → Bool
   | .str s => s == unmodelledMsg
@@ -93,6 +98,9 @@ partial def pQ : List String → Option (Q × List String)
   | "error" :: r => some (.error, r)
   | "try" :: r => do let (a, r) ← pQ r; pure (.try_ a, r)
   | "trycatch" :: r => do let (a, r) ← pQ r; let (b, r) ← pQ r; pure (.tryCatch a b, r)
+  | "index" :: r => do let (v, r) ← parseVal r; pure (.index v, r)
+  | "ite" :: r => do let (c, r) ← pQ r; let (a, r) ← pQ r; let (b, r) ← pQ r; pure (.ite c a b, r)
+  | "alt" :: r => do let (a, r) ← pQ r; let (b, r) ← pQ r; pure (.alt a b, r)
   | _ => none
 
 partial def pQs : Nat → List String → Option (List Q × List String)
@@ -143,6 +151,11 @@ def showInstr (r : Ren) : Instr → Ren × String
   | .forktrybegin t => (r, s!"forktrybegin {t}")
   | .forktryend => (r, "forktryend")
   | .callerror => (r, "call error/0")
+  | .dup => (r, "dup")
+  | .jumpifnot t => (r, s!"jumpifnot {t}")
+  | .index k => (r, "index " ++ toWire k)
+  | .expbegin => (r, "expbegin")
+  | .expend => (r, "expend")
 
 def showCode (code : Code) : String :=
   let (_, out) := code.foldl (fun (acc : Ren × List String) i =>
@@ -159,6 +172,13 @@ def showOutcome : Outcome → String
     | some m => if outs.any mentionsUnmodelled || mentionsUnmodelled v then "?error message not modelled"
                 else showOuts outs ++ "ERR msg s" ++ bytesToHex m
     | none => "?error message not modelled"
+  | .finished outs (some (.plain (.idx v k))) =>
+    match Gojq.funcIndex2 v k with
+    | .error e => (match e.message with
+      | some m => if outs.any mentionsUnmodelled || mentionsUnmodelled v then "?error message not modelled"
+                  else showOuts outs ++ "ERR msg s" ++ bytesToHex m
+      | none => "?error message not modelled")
+    | .ok _ => "?index"
   | .finished outs (some (.plain (.user v))) =>
     if outs.any mentionsUnmodelled || mentionsUnmodelled v then "?error message not modelled"
     else showOuts outs ++ "ERR value " ++ toWire v
